@@ -396,6 +396,32 @@ func c11parse(c *Ctx) {
 	if n == 0 {
 		r.Unknown("CONV", fkey(fn)+"/int32-from-ParseInt32", c.Pos(fn.Pos()), "no int32 conversion found: unknown idiom")
 	}
+	r.Rule("PATH(default on error): every way GetPodEvictionPriority can return a non-nil error returns the priority 0 with it (the sorters only log the error and sort by the returned value; ParseInt hands back the clamped extreme on a range error)")
+	bad := ""
+	ne := 0
+	for _, alt := range an.ReturnAlts(fn) {
+		if len(alt.Results) != 2 {
+			continue
+		}
+		e := alt.Results[1]
+		if an.IsNilConst(e) {
+			continue
+		}
+		nilByGuard := false
+		for _, g := range alt.Guards {
+			if rel, ok := an.RelOf(g); ok && rel.Op == token.EQL && ((rel.X == e && an.IsNilConst(rel.Y)) || (rel.Y == e && an.IsNilConst(rel.X))) {
+				nilByGuard = true
+			}
+		}
+		if nilByGuard {
+			continue
+		}
+		ne++
+		if k, isC := constIntOf(alt.Results[0]); !isC || k != 0 {
+			bad = c.InstrPos(alt.Ret)
+		}
+	}
+	r.Check(bad == "" && ne >= 1, "PATH", fkey(fn)+"/error=>zero", c.Pos(fn.Pos()), "an error comes with priority 0", "a return at "+bad+" can carry an error together with a non-zero priority: an out-of-range annotation makes the pod the very first (or last) victim")
 }
 
 // c11policyName: the opt-out annotation is tested against the policy the task is built for.
